@@ -45,15 +45,31 @@ def query(ps, w):
     """All C06 answers of the real code for PID, in the specification's shape
     (tick counts recovered from seconds)."""
     pr = ps.Process(PID)
-    clk = w.clk_tck
-    ct = pr.cpu_times()
-    return {
-        "name": os.fsencode(pr.name()), "ppid": pr.ppid(), "status": pr.status(),
-        "cpu_times": list(ct), "create_time": pr.create_time(), "cpu_num": pr.cpu_num(),
-        "terminal": pr.terminal(), "num_threads": pr.num_threads(),
-        "ctx": list(pr.num_ctx_switches()), "uids": list(pr.uids()), "gids": list(pr.gids()),
-        "threads": sorted((t.id, t.user_time, t.system_time) for t in pr.threads()),
-    }
+
+    def answers():
+        ct = pr.cpu_times()
+        return {
+            "name": os.fsencode(pr.name()), "ppid": pr.ppid(), "status": pr.status(),
+            "cpu_times": list(ct), "create_time": pr.create_time(), "cpu_num": pr.cpu_num(),
+            "terminal": pr.terminal(), "num_threads": pr.num_threads(),
+            "ctx": list(pr.num_ctx_switches()), "uids": list(pr.uids()), "gids": list(pr.gids()),
+            "threads": sorted((t.id, t.user_time, t.system_time) for t in pr.threads()),
+        }
+    # asked plainly, or as the first / as a later question of one oneshot() block in which other
+    # methods drawing on the same records (cpu_percent, username's uids, as_dict) went before
+    _QN[0] += 1
+    mode = _QN[0] % 3
+    if mode == 0:
+        return answers()
+    with pr.oneshot():
+        if mode == 2:
+            pr.cpu_percent()
+            pr.as_dict(attrs=["cpu_times", "num_threads", "uids", "status"])
+            answers()
+        return answers()
+
+
+_QN = [0]
 
 
 def compare(got, out, S, w):
